@@ -287,6 +287,28 @@ def ligand_pattern_family(kind, quick=True):
                 g = r.copy()
                 g.atom_stereo[0] = (cname, tuple(range(k + 1)), par)
                 out.append((f"{cname}/{''.join('ABCDEF'[i] for i in pat)}/{par}", g))
+    # lone-pair placeholders: one or two ligand positions are None (H-O-F, T-shaped ClF(Br)(I) ...): swapping two
+    # placeholders is a symmetry, so such centres are achiral whatever the real ligands are
+    for cname, k in specs:
+        for m_none in (1, 2):
+            if m_none > k - 2:
+                continue
+            arrangements = list(itertools.combinations(range(k), m_none))
+            if quick:
+                arrangements = arrangements[:: max(1, len(arrangements) // 3)]
+            for none_pos in arrangements:
+                real = [i for i in range(k) if i not in none_pos]
+                for es in sorted({tuple({}.setdefault(e, e) for e in es) for es in itertools.product((1, 9, 17), repeat=len(real))})[:: (4 if quick else 1)]:
+                    r = mk(kind, len(real) + 1, [(0, i) for i in range(1, len(real) + 1)], [8] + list(es))
+                    atoms = [0] + [None] * k
+                    for j, pos in enumerate(real):
+                        atoms[1 + pos] = j + 1
+                    for par in PARITIES[cname]:
+                        if par is None:
+                            continue
+                        g = r.copy()
+                        g.atom_stereo[0] = (cname, tuple(atoms), par)
+                        out.append((f"{cname}/placeholders{none_pos}/{es}/{par}", g))
     for cname in ("PlanarBond", "AtropBond"):
         for es in itertools.product((1, 9), repeat=4):
             r = mk(kind, 6, [(0, 2), (1, 2), (2, 3), (3, 4), (3, 5)], [es[0], es[1], 6, 6, es[2], es[3]])
